@@ -15,10 +15,12 @@
 #define RELEASED(FREE0, RES0) (((FREE0) != NULL && (RES0) != NULL) ? 1u : 0u)
 /* representation invariant of a record owned by a QXmppPromise<T>/QXmppTask<T> pair with tag K (K_VOID/K_COPY/K_MOVE):
  * the deleter is the one the promise constructor installed; a stored continuation was stored by QXmppTask<T>::then();
- * a result is stored only once finished, and only for non-void T */
+ * a result is stored only once finished, and only for non-void T; a stored continuation holds no strong handle on this record
+ * (CLOSURE_OWNS is generated from the wrapper lambda's real capture list) */
 #define DELETER_OF(K) ((K) == K_VOID ? (qdeleter)NULL : ((K) == K_COPY ? &DELETER_COPY : &DELETER_MOVE))
 #define REP(r, K) ((r)->freeResult == DELETER_OF(K) && ((r)->continuation.kind == K_EMPTY || (r)->continuation.kind == (K)) \
-                   && ((K) != K_VOID || (r)->result == NULL) && ((r)->finished || (r)->result == NULL))
+                   && ((K) != K_VOID || (r)->result == NULL) && ((r)->finished || (r)->result == NULL) \
+                   && (!HAS_CONT(r) || !CLOSURE_OWNS((r)->continuation.c, r)))
 #define RESULT_OK(r) ((r)->result == NULL || __CPROVER_is_fresh((r)->result, sizeof(cval)))
 #define STORED(r) (*(cval *)(r)->result)
 /* logical variable: the value stored in the record's result box before the call (the harness chooses it arbitrarily) */
